@@ -1413,8 +1413,33 @@ fn trace_run(scn: &MScn, entropy: u64) -> Result<(Vec<u64>, Vec<(u16, u16)>, Opt
                         }
                     }
                     let mut tr = vec![];
-                    let total: u32 = scn.ops.iter().map(|o| if let Op::Step(k) = o { *k } else { 0 }).sum();
-                    for _ in 0..total.min(scn.max_ticks) {
+                    let mut budget = scn.max_ticks;
+                    let mut plan: Vec<Option<&Op>> = vec![];
+                    for o in &scn.ops {
+                        match o {
+                            Op::Step(k) => {
+                                for _ in 0..(*k).min(budget) {
+                                    plan.push(None);
+                                }
+                                budget -= (*k).min(budget);
+                            }
+                            other => plan.push(Some(other)),
+                        }
+                    }
+                    for item in plan {
+                        if let Some(op) = item {
+                            // host operation between steps (reset, reload, pc): part of the history
+                            let _ = guarded(|| exec_op(&mut w, op))?;
+                            let mut f = Fp::new();
+                            f.add(0x0900);
+                            f.add(w.sim.pc as u64);
+                            for k in 0..8 {
+                                f.add(w.sim.reg_file[reg(k)].get() as u64);
+                                f.add(w.sim.reg_file[reg(k)].is_init() as u64);
+                            }
+                            tr.push(f.0);
+                            continue;
+                        }
                         let r = guarded(|| w.sim.step_in())?;
                         let mut f = Fp::new();
                         f.add(w.sim.pc as u64);
@@ -1493,6 +1518,24 @@ impl Check for C31 {
         if r.chance(1, 2) {
             s.srcs.push(SrcSpec { text: format!(".orig x{:04X}\n.blkw {}\n.end\n", 0x7000 + r.below(0x100) as u16, 1 + r.below(8)), debug: false });
             s.regs.push((r.below(6) as u8, 0x7000 + r.below(0x100) as u16));
+        }
+        // histories with a reset (memory and registers are re-created under the same strategy) or a
+        // reload on top of the used machine in the middle
+        if r.chance(1, 2) {
+            let total: u32 = s.ops.iter().map(|o| if let Op::Step(k) = o { *k } else { 0 }).sum::<u32>().min(s.max_ticks);
+            let a = r.below(total as u64 + 1) as u32;
+            let mut ops = vec![Op::Step(a)];
+            if r.bool() {
+                ops.push(Op::Reset);
+                for k in 0..s.srcs.len() {
+                    ops.push(Op::Load(k));
+                }
+                ops.push(Op::SetPc(s.pc));
+            } else {
+                ops.push(Op::Load(r.below(s.srcs.len().max(1) as u64) as usize));
+            }
+            ops.push(Op::Step(total - a));
+            s.ops = ops;
         }
         s
     }
